@@ -113,7 +113,7 @@ def setup_worker():
 def plan(tier):
     if tier == "thorough":
         return {"runs": 300000, "budget_s": 1500, "chunk": 200, "recheck": 16, "shrink_s": 120}
-    return {"runs": 4000, "budget_s": 120, "chunk": 50, "recheck": 8, "shrink_s": 45}
+    return {"runs": 8000, "budget_s": 120, "chunk": 50, "recheck": 8, "shrink_s": 45}
 
 
 def generate(rng, tier):
